@@ -131,7 +131,7 @@ pub fn run(args: &Args) {
                 dags.push(d.clone())
             }
         });
-        let ex = run_all(&mut rep, name, &dags, oracles, false, |d, f| cases(d, actors, act, split, f));
+        let ex = run_all(&mut rep, name, &dags, oracles, false, |c, _| matches!(c, "commit-outcome" | "history-shrank" | "failed-op-changed-state" | "cmdset" | "heads"), |d, f| cases(d, actors, act, split, f));
         families.push(json!({"family": name, "universes": dags.len(), "executions": ex}));
     }
     rep.require_nonzero("concurrent_transaction_errors");
